@@ -36,6 +36,9 @@ type chain struct {
 	core  *ssa.Call     // call of the innermost handler
 	off   int           // index of the context parameter of k (1 when k is a method: the continuation is a bound method value)
 	pos   int           // method form: index of the receiver's field holding the chain position (-1 otherwise)
+	// endAtBuild: the end of the chain is decided when the continuation is built — the builder returns the core
+	// handler itself (a bound method) once position >= len(chain), and a stage continuation otherwise
+	endAtBuild bool
 }
 
 // findChains discovers the continuation closures of the repository.
@@ -324,9 +327,16 @@ func runC19(r *Run, verifDir string) {
 			}
 			return ok
 		}
+		if c.core == nil {
+			c.endAtBuild = builderEndsChain(c)
+		}
 		switch {
-		case c.core == nil:
+		case c.core == nil && !c.endAtBuild:
 			r.Unk("C19.W2", key, c.k.Pos(), "innermost handler call not recognised")
+		case c.endAtBuild && ownParams(c.stage, 1) && returnsUnchanged(c.stage):
+			r.OK("C19.W2", key, c.stage.Pos(), "the stage receives (ctx, msg) of this continuation and its results are returned as they are; the innermost continuation is the core handler itself")
+		case c.endAtBuild:
+			r.Bad("C19.W2", key, c.stage.Pos(), "the stage is not given the continuation's own context and message, or its results are not returned unchanged")
 		case !ownParams(c.stage, 1):
 			r.Bad("C19.W2", key, c.stage.Pos(), "the stage is not given the continuation's own context and message (a captured outer variable is passed instead): a message or context substituted by the previous middleware is ignored")
 		case func() bool {
@@ -438,7 +448,9 @@ func runC19(r *Run, verifDir string) {
 			}
 		}
 		// stage under idx < len, core on the other edge
-		if w3 == "" {
+		if w3 == "" && c.endAtBuild {
+			// checked by builderEndsChain: stage continuation built only under position < len(chain), core otherwise
+		} else if w3 == "" {
 			if c.cmp == nil || (c.cmp.X != c.idx && accessPath(c.cmp.X) != accessPath(c.idx)) {
 				w3 = "no `position < len(chain)` test selects between stage and core"
 			} else {
@@ -467,7 +479,7 @@ func runC19(r *Run, verifDir string) {
 		}
 		// ---- W5: an invocation of the continuation runs the remainder exactly once — every path from the entry of
 		// the continuation to a return goes through exactly one of {stage call, core call}
-		if c.core != nil {
+		if c.core != nil || c.endAtBuild {
 			paths, okP := enumeratePaths(c.k, 256)
 			badPos, badN := token.NoPos, 0
 			for _, path := range paths {
@@ -482,7 +494,7 @@ func runC19(r *Run, verifDir string) {
 				}
 				for _, b := range path {
 					for _, in := range b.Instrs {
-						if in == ssa.Instruction(c.stage) || in == ssa.Instruction(c.core) {
+						if in == ssa.Instruction(c.stage) || (c.core != nil && in == ssa.Instruction(c.core)) {
 							n++
 						}
 					}
@@ -991,4 +1003,110 @@ func findFoldChains(r *Run) int {
 		}
 	}
 	return n
+}
+
+// builderEndsChain: the function that builds the continuation c.k returns, under `position >= len(chain)`, the core
+// handler itself as the continuation (a bound method of the package), and builds c.k only on the other edge.
+func builderEndsChain(c *chain) bool {
+	b := c.k.Parent()
+	if b == nil {
+		return false
+	}
+	var mk *ssa.MakeClosure
+	allInstrs(b, func(in ssa.Instruction) {
+		if mc, ok := in.(*ssa.MakeClosure); ok && mc.Fn == ssa.Value(c.k) {
+			mk = mc
+		}
+	})
+	if mk == nil {
+		return false
+	}
+	// the position as the builder sees it: the value bound to the free variable the continuation indexes with
+	var pos ssa.Value
+	if fv := cursorVar(c.idx); fv != nil {
+		for i, f2 := range c.k.FreeVars {
+			if f2 == fv {
+				pos = mk.Bindings[i]
+			}
+		}
+	} else if fv, ok := c.idx.(*ssa.FreeVar); ok {
+		for i, f2 := range c.k.FreeVars {
+			if f2 == fv {
+				pos = mk.Bindings[i]
+			}
+		}
+	}
+	isPos := func(v ssa.Value) bool {
+		if pos == nil {
+			return false
+		}
+		if v == pos {
+			return true
+		}
+		// captured by reference: the cell holds the builder's parameter
+		if al, ok := pos.(*ssa.Alloc); ok {
+			if ld, ok := v.(*ssa.UnOp); ok && ld.X == ssa.Value(al) {
+				return true
+			}
+			for _, ref := range *al.Referrers() {
+				if st, ok := ref.(*ssa.Store); ok && st.Addr == ssa.Value(al) && st.Val == v {
+					return true
+				}
+			}
+		}
+		return false
+	}
+	endEdge := func(dc domCond) (bool, bool) { // (is the end test, outcome means "at the end")
+		bo, ok := dc.cond.(*ssa.BinOp)
+		if !ok || !isPos(bo.X) {
+			return false, false
+		}
+		y, isLen := lenOperand(bo.Y)
+		if !isLen {
+			return false, false
+		}
+		ld, ok := y.(*ssa.UnOp)
+		if !ok {
+			return false, false
+		}
+		if _, f2, ok := fieldAddrOf(ld.X); !ok || f2 != c.field {
+			return false, false
+		}
+		switch bo.Op {
+		case token.GEQ:
+			return true, dc.outcome
+		case token.LSS:
+			return true, !dc.outcome
+		}
+		return false, false
+	}
+	coreRet, stageOK := false, false
+	for _, blk := range b.Blocks {
+		ret, ok := blk.Instrs[len(blk.Instrs)-1].(*ssa.Return)
+		if !ok || len(ret.Results) != 1 {
+			continue
+		}
+		v := ret.Results[0]
+		if ct, ok := v.(*ssa.ChangeType); ok {
+			v = ct.X
+		}
+		mcl, ok := v.(*ssa.MakeClosure)
+		if !ok {
+			continue
+		}
+		f, _ := mcl.Fn.(*ssa.Function)
+		for _, dc := range dominatingConds(blk) {
+			isEnd, atEnd := endEdge(dc)
+			if !isEnd {
+				continue
+			}
+			if atEnd && f != nil && strings.Contains(f.Synthetic, "bound method") && f.Object() != nil {
+				coreRet = true
+			}
+			if !atEnd && mcl == mk {
+				stageOK = true
+			}
+		}
+	}
+	return coreRet && stageOK
 }
